@@ -1,10 +1,12 @@
 // bech32 0.9.1 – uninterpreted codec.
 use vstd::prelude::*;
 verus! {
-#[derive(Structural, PartialEq, Eq, Clone, Copy)]
+#[derive(Debug, Structural, PartialEq, Eq, Clone, Copy)]
 pub enum Variant { Bech32, Bech32m }
+#[derive(Debug)]
 pub struct Error { pub dummy: u8 }
 #[allow(non_camel_case_types)]
+#[derive(Debug)]
 pub struct u5(pub u8);
 /// hrp of a checksum-valid bech32 string (None when `decode` fails)
 pub uninterp spec fn bech32_hrp(s: Seq<char>) -> Option<Seq<char>>;
